@@ -34,7 +34,7 @@ func (p *Prop) Meta() simkit.Meta {
 		},
 		FaultKinds:    []string{"writer_error", "writer_short_write", "callback_crash"},
 		NotApplicable: []string{"message loss/duplication/reordering", "partitions", "crash-restart with durable state", "torn/lost disk writes (no durable state: the only I/O is one io.Writer)", "disk full", "clock skew/jumps", "allocation or syscall failure"},
-		RunsQuick:     40000, RunsThorough: 1500000,
+		RunsQuick:     120000, RunsThorough: 3000000,
 	}
 }
 
